@@ -10,6 +10,7 @@ import MosnVerif.Model.DispatchCodec
 import MosnVerif.Model.PoolRecover
 import MosnVerif.Drive.C08H2
 import MosnVerif.Drive.C08Dubbo
+import MosnVerif.Drive.C08H1
 /-! driver of C08 (malformed input contained): see `run` for the case kinds. Core Lean only. -/
 namespace MosnVerif.Drive.C08
 open MosnVerif.Drive MosnVerif.Model.Framing MosnVerif.Model.FrameBytes MosnVerif.Model.FrameChk MosnVerif.Model.KVBlock
@@ -283,6 +284,7 @@ def run (caseToks impl : List String) : String :=
   | ["pool", api, st] => pool api st impl
   | ["dmeta", listener, kinds, nargs, _] => MosnVerif.Drive.C08Dubbo.dmeta listener kinds nargs impl
   | ["h2disp", side, bytes] => MosnVerif.Drive.C08H2.h2disp side bytes impl
+  | ["h1disp", side, l, b, bytes, script, head] => MosnVerif.Drive.C08H1.h1disp side l b bytes script head impl
   | ["contain", _, _] =>
     -- containment run (support): the probe client must have been answered after this malformed connection
     (match impl with
